@@ -846,6 +846,12 @@ class HTTP1ServerConnection:
                     return
                 if not ret:
                     return
+                if self.stream.closed():
+                    # The connection was closed after the response (e.g.
+                    # "Connection: close"); do not process pipelined requests
+                    # that happen to be buffered already, since their
+                    # responses could never be delivered.
+                    return
                 await asyncio.sleep(0)
         finally:
             delegate.on_close(self)
